@@ -427,3 +427,40 @@ theorem plan_noDate (table : String) (a b : Bytes) : ∀ (sels : List Selector) 
     · cases h
 
 end Qryn.Confine
+
+namespace Qryn.Confine
+open Qryn Qryn.Sql Qryn.Prof Qryn.Prom
+
+/-- every select of a union statement — each operand of the union and the main select — is confined on its own -/
+def unionConfined (cfg : Cfg) (w : Window) (u : UnionStmt) : Bool :=
+  u.ops.all (fun s => bodyConfined cfg w [] s && isIndexSelection cfg s) && bodyConfined cfg w [] u.main
+
+theorem labelsSel_body (cfg : Cfg) (c : PCtx) (h : ProfCfg cfg c) (col : String) (label : Option Bytes) (withFp : Bool) (ok : List Alias) :
+    bodyConfined cfg (winProf c) ok (labelsSel c col label withFp) = true := by
+  apply bodyConfined_index cfg _ ok _ c.ginDistTable rfl h.ginDist rfl
+  · simp only [labelsSel, preOf, whereOf, conjuncts_none, List.nil_append]
+    apply all_conj
+    intro e he
+    simp only [List.mem_append] at he
+    rcases he with (he | he) | he
+    · exact fine_dateConds c e he
+    · cases withFp
+      · cases he
+      · simp only [if_true, List.mem_singleton] at he; subst he; exact fine_isIn _ _ _
+    · cases label with
+      | none => cases he
+      | some l =>
+        simp only [List.mem_singleton] at he; subst he
+        exact fine_noDate_leaf _ _ (leaf_logical _ _ (by decide)) (by simp [mentionsDate, eq, isDateCol])
+  · simp only [labelsSel, preOf, whereOf, conjuncts_none, List.nil_append]
+    exact any_conj _ _ (ge (.raw "date") (.str c.fromDate)) (by simp [dateConds]) (leaf_logical _ _ (by decide)) (dateLower_ge_date c)
+
+theorem labelsUnion_confined (cfg : Cfg) (c : PCtx) (h : ProfCfg cfg c) (col : String) (label : Option Bytes)
+    (scripts : List (List PCond × List PCond)) (hg : ∀ p ∈ scripts, ∀ g ∈ p.1, g.noDate = true) :
+    unionConfined cfg (winProf c) (labelsUnion c col label scripts) = true := by
+  unfold unionConfined labelsUnion
+  simp only [Bool.and_eq_true, List.all_map, List.all_eq_true, Function.comp]
+  refine ⟨fun p hp => ⟨selectorSel_body cfg c h p.1 p.2 (hg p hp) [], ?_⟩, labelsSel_body cfg c h col label true []⟩
+  simp [selectorSel, isIndexSelection, fromTable, h.gin]
+
+end Qryn.Confine
